@@ -1,4 +1,5 @@
-import FitProps.ValueReencodeLemmas
+import FitProps.ValueAnyLemmas
+import FitProps.ValueReencodeStrLemmas
 /-!
 # C06 — Protocol values marshal to their declared size and unmarshal to themselves
 
@@ -7,12 +8,22 @@ families `value` / `unm` / `vany`.
 
 PROPERTY THEOREMS (audited by ./check): C06_size_eq_len, C06_marshal_total, C06_marshal_bytes,
 C06_unmarshal_marshal_partial, C06_unmarshal_marshal_full_fails, C06_norm_id, C06_norm_bool, C06_norm_string, C06_norm_strings,
-C06_unmarshal_guard, C06_unmarshal_no_panic, C06_unmarshal_err_iff, C06_unmarshal_bool_array, C06_unmarshal_reencode_partial,
-C06_tag, C06_raw_len, C06_no_cross_type, C06_any_roundtrip, C06_align_by_type
+C06_unmarshal_guard, C06_unmarshal_no_panic, C06_unmarshal_err_iff, C06_unmarshal_bool_array, C06_unmarshal_reencode,
+C06_unmarshal_marshal_actual, C06_readBack_clean, C06_tag, C06_raw_len, C06_no_cross_type, C06_any_roundtrip,
+C06_any_reflect_agrees, C06_any_wrap_unwrap, C06_any_unsupported, C06_any_names_transparent, C06_align_by_type
+
+STRINGS: the domain of the round trip. `C06_unmarshal_marshal_partial` has the hypothesis `clean`: every string (piece) is valid
+UTF-8 without a well-formed U+FFFD. It excludes TWO classes, kept apart here: (1) valid UTF-8 containing U+FFFD — inside the
+property, the code is wrong there: finding KF-C06-1, `C06_unmarshal_marshal_full_fails`; (2) byte strings that are NOT valid
+UTF-8 (`notUtf8`) — outside the property: a FIT string is UTF-8 by definition of the protocol, the encoder refuses such a string
+(`errInvalidUTF8String`, C10_reject_bad_value) so the SDK never writes one, and `utf8String` documents what it does with
+foreign bytes ("converts b into a valid UTF-8 string … RuneError … it will discard it"). What the code returns on ALL
+strings, both classes included, is `C06_unmarshal_marshal_actual` (no `clean` hypothesis): `readBack`, which is `norm` on the
+clean ones (`C06_readBack_clean`). `.string [0x61, 0xFF, 0x62]` ("a\xffb") reads back as "ab": example below.
 
 `typedef.Bool` arrays (finding KF-C01-boolarr, repaired in /repo 5da5106): `UnmarshalValue` clamps the elements of a bool
 ARRAY exactly as `proto.Bool` clamps a single value (`C06_unmarshal_bool_array`), so that what it returned for ANY bytes
-re-marshals and reads back as itself (`C06_unmarshal_reencode_partial`; before the repair `[]typedef.Bool{0x1C}` read back as
+re-marshals and reads back as itself (`C06_unmarshal_reencode`, every base type; before the repair `[]typedef.Bool{0x1C}` read back as
 `{255}`). The round-trip theorem was unaffected (`MarshalAppend` already wrote 255 for such elements).
 
 Known finding KF-C06-1 (F02): `utf8String` drops a well-formed U+FFFD; the round-trip theorem is therefore
@@ -199,6 +210,57 @@ example (v : Value) : validStrings v = true → (clean v = true ∨
       | true => exact absurd ⟨x, hx', hq⟩ hx
   all_goals (left; rfl)
 
+/-- class (2) of the header: some string (piece) of the value is not valid UTF-8 — not a FIT string; outside the property -/
+def notUtf8 (v : Value) : Bool := !validStrings v
+
+/-- **what the code returns** for the marshalled bytes of `v`, for ALL strings: a string through `utf8String` (stops at the
+first NUL, drops every byte sequence `utf8.DecodeRune` rejects and every U+FFFD), a string array as its non-empty
+NUL-terminated segments, each through `utf8String`, kept if non-empty; the normal form `norm` on the other 22 types -/
+def readBack : Value → Value
+  | .string s => .string (utf8String (strBytes s))
+  | .sliceString vs => .sliceString (unmarshalStrings (if vs.isEmpty then [0] else vs.flatMap strBytes))
+  | v => norm v
+
+/-- **The round trip as the code behaves, for ALL strings** (no `clean` hypothesis: valid UTF-8 with U+FFFD and byte strings
+that are not UTF-8 included): unmarshalling the marshalled bytes of a well-formed value under a base type it aligns with
+returns `readBack v`. -/
+theorem C06_unmarshal_marshal_actual (v : Value) (a bt : Nat) (bs : List Nat) (hwf : wf v = true)
+    (hal : align v bt = true) (hm : marshal v a = some bs) :
+    unmarshal bs a bt (isBoolType v) (isSlice v) = .ok (readBack v) := by
+  cases v
+  case string s =>
+    simp only [marshal, Option.some.injEq] at hm; subst hm
+    simp only [align, beq_iff_eq] at hal; subst hal
+    simp [unmarshal, btEnum, btSint8, btByte, btUint8, btUint8z, btSint16, btUint16, btUint16z, btSint32, btUint32,
+      btUint32z, btSint64, btUint64, btUint64z, btFloat32, btFloat64, btString, isBoolType, isSlice, readBack]
+  case sliceString vs =>
+    simp only [marshal, Option.some.injEq] at hm; subst hm
+    simp only [align, beq_iff_eq] at hal; subst hal
+    simp [unmarshal, btEnum, btSint8, btByte, btUint8, btUint8z, btSint16, btUint16, btUint16z, btSint32, btUint32,
+      btUint32z, btSint64, btUint64, btUint64z, btFloat32, btFloat64, btString, isBoolType, isSlice, readBack]
+  all_goals exact C06_unmarshal_marshal_partial _ a bt bs hwf hal rfl hm
+
+/-- … which is the wire normal form on the domain of the property minus the class of KF-C06-1 -/
+theorem C06_readBack_clean (v : Value) (hwf : wf v = true) (hcl : clean v = true) : readBack v = norm v := by
+  cases v <;> try rfl
+  case string s =>
+    have hb : Bytes s := bytes_of_allLt s (by simpa [wf] using hwf)
+    simp only [readBack, norm, utf8String_strBytes s hb (by simpa [clean] using hcl)]
+  case sliceString vs =>
+    have hb : ∀ s ∈ vs, Bytes s := by
+      intro s hs
+      simp only [wf, List.all_eq_true] at hwf
+      exact bytes_of_allLt s (hwf s hs)
+    have key := unmarshalStrings_marshal vs hb (by simpa [clean] using hcl)
+    simp only [readBack, norm, key]
+
+
+/-- the three classes partition the well-formed values; the audit's witness "a\xffb" is in class (2) and reads back as "ab" -/
+example (v : Value) : clean v = true ∨ (validStrings v = true ∧ clean v = false) ∨ notUtf8 v = true := by
+  cases h1 : clean v <;> cases h2 : validStrings v <;> simp [notUtf8, h2]
+example : notUtf8 (.string [0x61, 0xFF, 0x62]) = true ∧ clean (.string [0x61, 0xFF, 0x62]) = false ∧
+    readBack (.string [0x61, 0xFF, 0x62]) = .string [0x61, 0x62] ∧ Fit.Value.utf8Valid (.string [0x61, 0xFF, 0x62]) = false := by decide
+
 /-- the normal form is the identity on the 20 types that are neither bool nor string -/
 theorem C06_norm_id (v : Value) (h : isBoolType v = false)
     (hs : typeOf v ≠ typeString ∧ typeOf v ≠ typeSliceString) : norm v = v := by
@@ -312,24 +374,17 @@ theorem C06_unmarshal_bool_array (bs : List Nat) (a bt : Nat)
 
 example : unmarshal [0x1C, 1, 0, 0xFF, 2] 0 btEnum true true = .ok (.sliceBool [255, 1, 0, 255, 255]) := by decide
 
-/-- the statement below for EVERY base type, strings included -/
-def C06_unmarshal_reencode_full : Prop :=
-  ∀ (bs : List Nat) (a a' bt : Nat) (isBool isArray : Bool) (v : Value), (∀ b ∈ bs, b < 256) →
-    unmarshal bs a bt isBool isArray = .ok v →
-    ∃ bs', marshal v a' = some bs' ∧ unmarshal bs' a' bt isBool isArray = .ok v
-
-/-- **What `UnmarshalValue` returned re-marshals and reads back as itself** (partial: numeric base types; for strings the
-statement `C06_unmarshal_reencode_full` needs that `utf8String` is idempotent on its own output — it is the identity on clean
-strings, `utf8String_clean`, but that its output IS clean is not proved here). For ANY bytes, any of the 16 numeric base
-types, any profile-bool / array flags and any two byte orders `a`, `a'`: the value read from the bytes can be marshalled
-(it is never the invalid value) in byte order `a'`, and reading those bytes under the same base type and flags returns
-that very value — scalars, arrays (a trailing partial element was dropped by the first read), `typedef.Bool` scalars and,
-since /repo 5da5106, `typedef.Bool` arrays. This is the value layer of the last sentence of C01 ("re-encoding what the
-decoder returned gives the same messages"). -/
-theorem C06_unmarshal_reencode_partial (bs : List Nat) (a a' bt : Nat) (isBool isArray : Bool) (v : Value)
-    (hb : ∀ b ∈ bs, b < 256) (hs : bt ≠ btString) (h : unmarshal bs a bt isBool isArray = .ok v) :
+/-- **What `UnmarshalValue` returned re-marshals and reads back as itself.** For ANY bytes, EVERY base type (the 16 numeric
+ones and string), any profile-bool / array flags and any two byte orders `a`, `a'`: the value read from the bytes can be
+marshalled (it is never the invalid value) in byte order `a'`, and reading those bytes under the same base type and flags
+returns that very value — scalars, arrays (a trailing partial element was dropped by the first read), `typedef.Bool` scalars
+and, since /repo 5da5106, `typedef.Bool` arrays; strings and string arrays because what `utf8String` returns is NUL-free valid
+UTF-8 without U+FFFD (`Fit.Utf8.utf8String_good`), on which it is the identity. This is the value layer of the last sentence
+of C01 ("re-encoding what the decoder returned gives the same messages"). -/
+theorem C06_unmarshal_reencode (bs : List Nat) (a a' bt : Nat) (isBool isArray : Bool) (v : Value)
+    (hb : ∀ b ∈ bs, b < 256) (h : unmarshal bs a bt isBool isArray = .ok v) :
     ∃ bs', marshal v a' = some bs' ∧ unmarshal bs' a' bt isBool isArray = .ok v :=
-  unmarshal_reencode bs a a' bt isBool isArray v hb hs h
+  unmarshal_reencode_all bs a a' bt isBool isArray v hb h
 
 /-- non-vacuity: a big-endian uint16 array with a trailing odd byte, re-marshalled little-endian; the former witness of
 KF-C01-boolarr -/
@@ -339,6 +394,10 @@ example : unmarshal [1, 2, 3, 4, 5] 1 btUint16 false true = .ok (.sliceUint16 [0
 example : unmarshal [0x1C, 1] 0 btEnum true true = .ok (.sliceBool [255, 1]) ∧
     marshal (.sliceBool [255, 1]) 0 = some [255, 1] ∧
     unmarshal [255, 1] 0 btEnum true true = .ok (.sliceBool [255, 1]) := by decide
+/-- … and bytes that are not UTF-8 with an embedded U+FFFD, an empty segment and an unterminated tail, read as a string array -/
+example : unmarshal [0x61, 0xFF, 0x62, 0, 0, 0xEF, 0xBF, 0xBD, 0x63, 0, 0x64] 0 btString false true = .ok (.sliceString [[0x61, 0x62], [0x63]]) ∧
+    marshal (.sliceString [[0x61, 0x62], [0x63]]) 0 = some [0x61, 0x62, 0, 0x63, 0] ∧
+    unmarshal [0x61, 0x62, 0, 0x63, 0] 0 btString false true = .ok (.sliceString [[0x61, 0x62], [0x63]]) := by decide
 
 /-! ### tags and accessors -/
 
@@ -391,6 +450,46 @@ theorem C06_any_roundtrip (v : Value) (h : boolDomain v = true) :
       simp only [boolDomain, Bool.or_eq_true, beq_iff_eq] at h
       rcases h with (h | h) | h <;> subst h <;> decide
   rw [this]; exact ⟨rfl, rfl⟩
+
+/-- **The reflection path agrees with the typed constructors.** For every Go value — of an unnamed basic type (fast path),
+of a NAMED type over any of them (every `typedef` type, slices of them, named slice types), behind a pointer, named types of
+named types, pointers to named types — `proto.Any` returns what the typed constructor (`proto.Uint8`, `proto.SliceUint16`, …:
+`ofAnyDirect`) returns for the value seen by KIND (`underlying`: names transparent, one pointer followed, `typedef.Bool`
+behind a name or pointer a uint8, a `proto.Value` behind a pointer a struct). Guard: no float32 scalar signalling NaN through
+reflection (`float32(rv.Float())` quiets it: platform behaviour of the Go conversion, reproduced by `quiet32`). -/
+theorem C06_any_reflect_agrees (g : GoVal) (h : noSNaN32 g = true) : ofAny g = ofAnyDirect (underlying g) :=
+  any_reflect_agrees g h
+
+/-- **Wrapping then unwrapping preserves type and content**: `proto.Any(v).Any()` is the content of `v` unchanged, as the
+unnamed Go type of its kind (`expectAny`): identical for the 11 scalar and 12 slice types of the fast path; a named type /
+slice of a named type / pointer comes back as the basic type of its kind with the same elements; a Go `bool` as
+`typedef.Bool` 0 / 1; a `typedef.Bool` outside {0, 1} as `BoolInvalid`; anything `proto.Any` does not support as nil. -/
+theorem C06_any_wrap_unwrap (g : GoVal) (h : noSNaN32 g = true) : toAny (ofAny g) = expectAny g :=
+  any_wrap_unwrap g h
+
+/-- non-vacuity: `typedef.Sport(5)` (named uint8), `[]typedef.MesgNum{20, 0}` (slice of a named uint16), `*uint32`,
+a named type of a named type, `*typedef.Bool(2)` (a uint8 by kind), a named float32 that is a quiet NaN -/
+example : toAny (ofAny (.named (.uint8 5))) = .uint8 5 ∧ toAny (ofAny (.named (.uint16s [20, 0]))) = .uint16s [20, 0] ∧
+    toAny (ofAny (.ptr (.uint32 7))) = .uint32 7 ∧ toAny (ofAny (.named (.named (.int16 3)))) = .int16 3 ∧
+    toAny (ofAny (.ptr (.tbool 2))) = .uint8 2 ∧ toAny (ofAny (.tbool 2)) = .tbool 255 ∧
+    noSNaN32 (.named (.float32 0x7FC00001)) = true ∧ noSNaN32 (.named (.float32 0x7F800001)) = false ∧
+    noSNaN32 (.float32 0x7F800001) = true :=
+  ⟨rfl, rfl, rfl, rfl, rfl, rfl, by decide, by decide, by decide⟩
+
+/-- **Unsupported kinds give the invalid value** (never a value of another type): nil, `int` / `uint` / structs / maps /
+`[]any` (named or not, behind a pointer or not), a pointer to a pointer, a pointer to a `proto.Value`. -/
+theorem C06_any_unsupported (g : GoVal) (v : Value) :
+    ofAny .nil = .invalid ∧ ofAny .unsupported = .invalid ∧ ofAny (.named .unsupported) = .invalid ∧
+    ofAny (.ptr .unsupported) = .invalid ∧ ofAny (.ptr .nil) = .invalid ∧ ofAny (.ptr (.ptr g)) = .invalid ∧
+    ofAny (.ptr (.value v)) = .invalid ∧ ofAny (.named (.ptr (.ptr g))) = .invalid := by
+  refine ⟨rfl, rfl, rfl, rfl, rfl, rfl, rfl, ?_⟩
+  simp [ofAny, strip, byKind]
+
+/-- **Names are transparent**: a named type of a named type is its innermost kind, and a pointer to a named type is a
+pointer to what it names. -/
+theorem C06_any_names_transparent (g : GoVal) :
+    ofAny (.named (.named g)) = ofAny (.named g) ∧ ofAny (.ptr (.named g)) = ofAny (.ptr g) := by
+  constructor <;> simp [ofAny, strip]
 
 /-- `Align` looks at a value only through its type (scalar and slice of the same element type agree
 by definition of `align`). -/
